@@ -59,6 +59,52 @@ Qed.
 Lemma prf_wf s n : wf (snd (prf F s n)).
 Proof. unfold prf. apply squeeze_wf. rewrite begin_op_noT by reflexivity. apply begin_core_C_wf. reflexivity. Qed.
 
+(* ---------- every output of an operation that forces the permutation consists of bytes ---------- *)
+Lemma has_C_land fl : has (N.land fl (N.lxor 255 fI)) fC = has fl fC.
+Proof.
+  unfold has, fC, fI. change (N.lxor 255 1) with 254%N.
+  rewrite <- N.land_assoc. change (N.land 254 4) with 4%N. reflexivity.
+Qed.
+Lemma has_C_lor fl : has (N.lor fl fI) fC = has fl fC.
+Proof.
+  unfold has, fC, fI. rewrite N.land_lor_distr_l. change (N.land 1 4) with 0%N. rewrite N.lor_0_r. reflexivity.
+Qed.
+Lemma begin_op_as_core s fl : exists s1 fl1, begin_op F s fl = begin_core F s1 fl1 /\ has fl1 fC = has fl fC.
+Proof.
+  unfold begin_op. destruct (has fl fT).
+  - destruct (Bool.eqb _ _); eexists; eexists; (split; [reflexivity|]); [apply has_C_land|apply has_C_lor].
+  - exists s, fl. split; reflexivity.
+Qed.
+Lemma begin_op_C_wf s fl : has fl fC = true -> wf (st (begin_op F s fl)).
+Proof.
+  intros HC. destruct (begin_op_as_core s fl) as (s1 & fl1 & -> & H). apply begin_core_C_wf. congruence.
+Qed.
+
+Lemma copy_wf : forall n s, wf (st s) -> wf (snd (gen (copy1 F) s n)).
+Proof.
+  induction n as [|n IH]; intros s H; cbn [gen]; [constructor|].
+  unfold copy1 at 1.
+  assert (H1 : wf (st (adv F s (st s)))) by (apply adv_wf; exact H).
+  specialize (IH _ H1). destruct (gen (copy1 F) (adv F s (st s)) n) as [s2 os]. cbn [snd] in *.
+  constructor; [apply wf_nth; exact H|exact IH].
+Qed.
+Lemma send_mac_wf s n : wf (snd (send_mac F s n)).
+Proof. unfold send_mac. apply copy_wf. apply begin_op_C_wf. reflexivity. Qed.
+
+Lemma absorb_set_wf : forall d s, wf (st s) -> wf d -> wf (snd (mapacc (absorb_set1 F) s d)).
+Proof.
+  induction d as [|b d IH]; intros s H Hd; cbn [mapacc]; [constructor|].
+  inversion Hd as [|? ? Hb Hd']; subst.
+  unfold absorb_set1 at 1.
+  assert (Hc : (N.lxor (cur s) b < 256)%N) by (apply N_lxor_byte; [apply wf_nth; exact H|exact Hb]).
+  assert (H1 : wf (st (adv F s (upd (st s) (pos s) (fun _ => N.lxor (cur s) b))))).
+  { apply adv_wf, wf_upd; [exact H|intros; exact Hc]. }
+  specialize (IH _ H1 Hd'). destruct (mapacc (absorb_set1 F) _ d) as [s2 os]. cbn [snd] in *.
+  constructor; [exact Hc|exact IH].
+Qed.
+Lemma send_enc_wf s d : wf d -> wf (snd (send_enc F s d)).
+Proof. intros Hd. unfold send_enc. apply absorb_set_wf; [apply begin_op_C_wf; reflexivity|exact Hd]. Qed.
+
 (* ---------- what the dealer produces for a 16-byte key ---------- *)
 Lemma chunks_S f bs : chunks (S f) bs =
   if (24 <=? length bs)%nat then firstn 24 bs :: chunks f (skipn 24 bs) else [].
